@@ -330,7 +330,7 @@ def main(modname, tier, collect=None):
             "exhaustive": capped == 0,
             "capped_cases": capped,
             "capped_case_keys": [k for a in aggs for k in a.get("capped_keys", [])][:40],
-            "case_cpu_cap_s": CASE_CAP_S,
+            "case_cpu_cap_s": meta.get("case_cap_s", CASE_CAP_S),
             "status_counts": status,
             "counters": counters,
             "known_finding_cases_hit": known_hits,
